@@ -35,6 +35,16 @@ Theorem C01_na_partial : forall f g t rest, delim rest ->
   zdump (S f) false VNA = Ok t -> p_scalar (S g) true (t ++ rest) = Some (Ok VNA, rest).
 Proof. intros f g t rest Hd. cbn [zdump]. intro Q; inversion Q; subst t. cbn [List.app]. apply scalar_na. exact Hd. Qed.
 
+(* a reference without display name, followed by a delimiter other than a blank (a blank followed by a quoted string
+   would be its display name) *)
+Theorem C01_ref_partial : forall f g pre3 ver3 name t rest,
+  Forall (fun c => is_zref_char c = true) name -> delim_ns rest ->
+  zdump (S f) pre3 (VRef name None) = Ok t -> p_scalar (S g) ver3 (t ++ rest) = Some (Ok (VRef name None), rest).
+Proof.
+  intros f g pre3 ver3 name t rest Hn Hd. cbn [zdump]. intro Q; inversion Q; subst t. cbn [List.app].
+  apply scalar_ref_plain; assumption.
+Qed.
+
 (* the writer never fails on text *)
 Theorem C01_text_always_dumps : forall f pre3 s, (exists t, zdump (S f) pre3 (VStr s) = Ok t) /\ (exists t, zdump (S f) pre3 (VUri s) = Ok t).
 Proof.
@@ -57,6 +67,7 @@ Example C01_grid_example :
   end.
 Proof. vm_compute. reflexivity. Qed.
 
+Print Assumptions C01_ref_partial.
 Print Assumptions C01_letter_scalars_partial.
 Print Assumptions C01_na_partial.
 Print Assumptions C01_str_partial.
